@@ -365,3 +365,62 @@ Proof.
 Qed.
 
 End Sem.
+
+(* ---------------------------------------------------------------- availability and invariants along evaluation *)
+Section Avail.
+Variable V : Type.
+Variable sem : string -> list nat -> list V -> option (list V).
+Notation eval := (eval V sem).
+Notation step := (step V sem).
+
+Lemma lookups_defined (e : env V) xs vs x : lookups V e xs = Some vs -> In x xs -> e x <> None.
+Proof.
+  revert vs. induction xs as [|y r IH]; simpl; intros vs H Hin; [contradiction|].
+  destruct (e y) eqn:Ey; [|discriminate]. destruct (lookups V e r) eqn:El; [|discriminate].
+  destruct Hin as [->|Hin]; [congruence | eapply IH; eauto].
+Qed.
+
+(* if [o] is produced (only) by a node that reads [x], then whenever [o] is defined so is [x] *)
+Lemma avail_from_producer ns e n x o :
+  ssa V ns e -> In n ns -> In x (n_uses n) -> In o (n_outs n) -> avail_before V sem ns e x o.
+Proof.
+  intros Hssa Hn Hx Ho pre post em a Hsplit Hpre Hoa.
+  (* the producer is in the evaluated prefix, else o would still be undefined *)
+  assert (Hin : In n pre).
+  { subst ns. apply in_app_or in Hn as [H|H]; auto. exfalso.
+    destruct Hssa as [Hnd Hf]. unfold defs in *. rewrite flat_map_app in Hnd, Hf.
+    assert (Hop : In o (flat_map n_outs post)) by (apply in_flat_map; eauto).
+    assert (He : e o = None) by (apply Hf; apply in_or_app; now right).
+    assert (Hnp : ~ In o (flat_map n_outs pre)) by (intro Hp; eapply NoDup_app_disj; eauto).
+    rewrite (eval_undefined V sem pre e em o Hpre He Hnp) in Hoa. discriminate. }
+  assert (Hssa' : ssa V pre e).
+  { subst ns. destruct Hssa as [Hnd Hf]. unfold defs in *. rewrite flat_map_app in Hnd, Hf. split.
+    - eapply NoDup_app_l; eauto.
+    - intros y Hy. apply Hf. apply in_or_app. now left. }
+  destruct (eval_consistent V sem pre e em n Hssa' Hpre Hin) as (vs & oo & Hl & _ & _).
+  eapply lookups_defined; eauto.
+Qed.
+
+(* a predicate preserved by every operator holds of every value in every environment reached *)
+Lemma eval_pred (P : V -> Prop) :
+  (forall op ats vs o, Forall P vs -> sem op ats vs = Some o -> Forall P o) ->
+  forall ns e ef, (forall x a, e x = Some a -> P a) -> eval ns e = Some ef -> forall x a, ef x = Some a -> P a.
+Proof.
+  intros Hsem. induction ns as [|n r IH]; simpl; intros e ef He Hev x a Hx.
+  - injection Hev as <-. eauto.
+  - destruct (step e n) as [e1|] eqn:Es; [|discriminate].
+    apply (IH e1 ef) with (x := x); auto. clear IH Hev Hx x a.
+    unfold Graph.step in Es. destruct (lookups V e (n_uses n)) as [vs|] eqn:El; [|discriminate].
+    destruct (sem (n_op n) (n_attrs n) vs) as [o|] eqn:Eo; [|discriminate].
+    destruct (Nat.eqb _ _); [|discriminate]. injection Es as <-.
+    assert (Hvs : Forall P vs).
+    { clear Eo. revert vs El. induction (n_uses n) as [|y ys IHy]; simpl; intros vs El.
+      - injection El as <-. constructor.
+      - destruct (e y) eqn:Ey; [|discriminate]. destruct (lookups V e ys) eqn:El2; [|discriminate].
+        injection El as <-. constructor; eauto. }
+    pose proof (Hsem _ _ _ _ Hvs Eo) as Ho. clear Eo El Hvs.
+    revert e He o Ho. induction (n_outs n) as [|y ys IHy]; intros e He [|v o] Ho x a Hx; simpl in Hx; eauto.
+    inversion Ho; subst. eapply (IHy (upd V e y v)); eauto.
+    intros z b. unfold upd. destruct (Nat.eqb z y); [intro E; injection E as <-; auto | apply He].
+Qed.
+End Avail.
